@@ -22,7 +22,10 @@ R = Rules(
         "(block-wise fragments and follow-ups) carries the caller's override or the original's own tuning object and "
         "Message.__init__ stores the tuning it is given, and that the class of the error the give-up arm reports is "
         "still an error.TimeoutError after the conversion TokenManager.dispatch_error applies (evaluated on a small "
-        "world with the class hierarchy, builtin bases included).  The order of transmitting and re-arming inside the "
+        "world with the class hierarchy, builtin bases included), and that the remote half of the exchange key identifies the "
+        "endpoint: constructor, __eq__ and __hash__ of the UDP address class are interpreted over a finite world of socket "
+        "addresses against the reference 'same IP address and port (any scope id, any local address) is equal and hashes "
+        "equally, another address or port is unequal'.  The order of transmitting and re-arming inside the "
         "atomic (plain synchronous) retransmission step is not constrained.  Paper step: with these "
         "premises at most 1+MAX_RETRANSMIT transmissions occur with gaps t0*2^i and the give-up fires "
         "t0*(2^(N+1)-1) <= MAX_TRANSMIT_WAIT after the first copy.  Wall-clock behaviour is not decided."
@@ -1602,6 +1605,161 @@ def k(ctx):
     ctx.ob("the only writers of the tuning parameters are the class bodies of the TransportTuning hierarchy (%d classes)" % len(hierarchy), True, None, None, construct="TransportTuning hierarchy")
 
 
+
+# ---------------------------------------------------------------------------------------------------------------------
+# C03.l -- the identity of the remote the exchange key is built from
+#
+# "No further copy is sent once an ACK or Reset with the same message ID has arrived from the same endpoint ... while
+# empty ACKs ... from another endpoint change nothing": the exchange table is keyed by (message.remote, message.mid)
+# (C03.d), the stored remote is the address object the request was sent to, the looked-up remote is a *freshly built*
+# address object of the datagram that came in.  The lookup therefore is exactly Python's dict protocol over the
+# address class: hash(a) == hash(b) and a == b.  RFC 7252 section 1.2 defines the endpoint of an unsecured exchange
+# by IP address and UDP port; RFC 4007 / RFC 3493: the scope (zone) id and the local address a datagram was received
+# on (pktinfo) are *local* attributes of how the peer is reached, not part of the peer's identity, and the receiving
+# socket reports them independently of what the sender of the request put there.  Reference (written from those
+# texts, not from the class): over a finite world of address objects built through the class's own constructor from
+# AF_INET6 socket addresses (host, port, flowinfo, scope_id) x {without, with local pktinfo},
+#   (l1) the class is hashable and  a == b  implies  hash(a) == hash(b);
+#   (l2) equal (host, port, flowinfo) implies a == b -- whatever scope id and pktinfo say (same endpoint is found);
+#   (l3) different host or different port implies a != b (another endpoint changes nothing).
+# __init__, __eq__, __hash__, the properties and the methods they use are interpreted by _kit_c03.ObjEval over
+# concrete values, so every spelling with the same truth table is the same fact (slices, index tuples, unpacking,
+# a key helper/property, isinstance guards returning NotImplemented, all(... zip ...)), and an inherited or missing
+# __eq__ (identity) or a dropped __hash__ is decided as well.  What the evaluator cannot interpret is refused.
+
+ADDRESS_BASE = "aiocoap.interfaces.EndpointAddress"
+SOCKADDR_CLASSES = ["aiocoap.transports.udp6.UDP6EndpointAddress"]
+_HOSTS = ("2001:db8::1", "2001:db8::2")
+_PORTS = (5683, 61616)
+_FLOWS = (0, 9)
+_SCOPES = (0, 3, 5)
+_PKTINFO = bytes(range(20))
+
+
+def _sockaddr_param(prog, qn):
+    """Name of the constructor parameter that receives the socket address: at the construction sites of the class,
+    the argument whose value is a literal 4-tuple (the AF_INET6 address (host, port, flowinfo, scope_id) the transport
+    assembles).  None if no site shows one."""
+    ci = prog.classes[qn]
+    init = prog.lookup_method(qn, "__init__")
+    if init is None:
+        return None
+    pos = [a.arg for a in init.node.args.posonlyargs + init.node.args.args][1:]
+    found = set()
+    for fi in prog.funcs.values():
+        if fi.module is not ci.module:
+            continue
+        for call in ast.walk(fi.node):
+            if not isinstance(call, ast.Call):
+                continue
+            c = chain(call.func)
+            own = fi.cls is not None and getattr(fi.cls, "qn", fi.cls) == qn and (c == "cls" or ast.unparse(call.func) in ("type(self)", "self.__class__"))
+            if not own and (not c or prog.resolve_in_module(fi.module, c) != qn):
+                continue
+            cands = [(pos[i] if i < len(pos) else None, a) for i, a in enumerate(call.args)] + [(k.arg, k.value) for k in call.keywords]
+            for pname, a in cands:
+                for v in K.possible_values(fi, a) or [a]:
+                    if isinstance(v, ast.Tuple) and len(v.elts) == 4 and pname:
+                        found.add(pname)
+    return found.pop() if len(found) == 1 else None
+
+
+def _address_world(ctx, ev, qn):
+    """[(sockaddr, with_pktinfo, instance)] built through the class's own constructor"""
+    prog = ctx.prog
+    init = prog.lookup_method(qn, "__init__")
+    ctx.need(init is not None, "%s has a constructor" % qn)
+    sp = _sockaddr_param(prog, qn)
+    ctx.need(sp is not None, "one constructor parameter of %s receives the 4-tuple socket address at the construction sites" % qn)
+    a = init.node.args
+    ctx.need(not a.vararg and not a.kwarg and not a.posonlyargs, "%s.__init__ has a plain signature" % qn)
+    pos = [p.arg for p in a.args][1:]
+    npos_defaults = len(a.defaults)
+    required = pos[: len(pos) - npos_defaults] if npos_defaults else pos
+    optional_kw = [p.arg for p, d in zip(a.kwonlyargs, a.kw_defaults) if d is not None]
+    required_kw = [p.arg for p, d in zip(a.kwonlyargs, a.kw_defaults) if d is None]
+    world = []
+    for host in _HOSTS:
+        for port in _PORTS:
+            for flow in _FLOWS:
+                for scope in _SCOPES:
+                    sa = (host, port, flow, scope)
+                    for with_local in (False, True):
+                        kwargs = {}
+                        for p in required + required_kw:
+                            kwargs[p] = K.Opaque(p)
+                        if with_local:
+                            # every optional constructor argument given: the address as the receive path builds it
+                            for p in optional_kw + pos[len(required):]:
+                                kwargs[p] = _PKTINFO
+                        kwargs[sp] = sa
+                        world.append((sa, with_local, ev.new(qn, [], kwargs)))
+    return world
+
+
+@R.clause("C03.l", "the remote of the exchange key identifies the endpoint: address objects are hashable, equal objects hash equally, same IP address and port (any scope id, any local address) compare equal, another address or port compares unequal")
+def l(ctx):
+    prog = ctx.prog
+    n = 0
+    for qn in SOCKADDR_CLASSES:
+        if qn not in prog.classes:
+            raise AnchorError("anchor class %s not found" % qn)
+        ctx.need(prog.is_subclass(qn, ADDRESS_BASE), "%s is an EndpointAddress" % qn)
+        ci = prog.classes[qn]
+        short = qn[len("aiocoap."):]
+        ev = K.ObjEval(prog)
+        eqm = prog.lookup_method(qn, "__eq__")
+        hm = prog.lookup_method(qn, "__hash__")
+        try:
+            hashable = ev.hashable(qn)
+            ctx.ob("%s is hashable (it is the first half of the exchange key)" % short, hashable, hm or eqm, (hm or eqm).node if (hm or eqm) else ci.node,
+                   detail="a class body that defines __eq__ without __hash__ (or sets __hash__ = None) makes its instances unhashable", construct=short + ".__hash__")
+            n += 1
+            if not hashable:
+                continue
+            world = _address_world(ctx, ev, qn)
+            bad = {"l1": None, "l2": None, "l3": None}
+            for sa, la, x in world:
+                for sb, lb, y in world:
+                    if x is y:
+                        continue
+                    equal = ev.eq(x, y)
+                    if equal and bad["l1"] is None and ev.hash(x) != ev.hash(y):
+                        bad["l1"] = (sa, la, sb, lb)
+                    if sa[:3] == sb[:3] and not equal and bad["l2"] is None:
+                        bad["l2"] = (sa, la, sb, lb)
+                    if sa[:2] != sb[:2] and equal and bad["l3"] is None:
+                        bad["l3"] = (sa, la, sb, lb)
+        except K.EvalRefused as ex:
+            raise AnalysisError("identity protocol of %s: %s" % (short, ex))
+
+        def show(w):
+            return None if w is None else "%r%s vs %r%s" % (w[0], " +pktinfo" if w[1] else "", w[2], " +pktinfo" if w[3] else "")
+
+        at_eq = eqm or hm
+        at_hash = hm or eqm
+        ctx.ob("%s: equal addresses hash equally" % short, bad["l1"] is None, at_hash, at_hash.node if at_hash else ci.node,
+               detail=show(bad["l1"]), construct=short + ".__hash__ vs __eq__")
+        ctx.ob("%s: the same IP address, port and flow label is the same endpoint whatever the scope id and the local address (the address built for an incoming ACK/RST finds the exchange stored under the address the CON was sent to)" % short,
+               bad["l2"] is None, at_eq, at_eq.node if at_eq else ci.node, detail=show(bad["l2"]), construct=short + ".__eq__ same endpoint")
+        ctx.ob("%s: another IP address or port is another endpoint" % short, bad["l3"] is None, at_eq, at_eq.node if at_eq else ci.node,
+               detail=show(bad["l3"]), construct=short + ".__eq__ other endpoint")
+        ctx.extra.setdefault("C03.l", {})[short] = {"world": len(world), "interpreted": sorted(ev.deps)}
+    # every other address class that may become the first half of an exchange key: Python's own rule -- a class body
+    # that defines __eq__ without __hash__ (or sets __hash__ = None) makes the instances unhashable, inserting the
+    # exchange raises TypeError.  (Their equality is not modelled: they are not built from socket addresses.)
+    ev = K.ObjEval(prog)
+    for qn in sorted(prog.subclasses(ADDRESS_BASE)):
+        if qn in SOCKADDR_CLASSES or qn == ADDRESS_BASE:
+            continue
+        if ev.member(qn, "__eq__") is None and ev.member(qn, "__hash__") is None:
+            continue
+        m = prog.lookup_method(qn, "__eq__") or prog.lookup_method(qn, "__hash__")
+        ctx.ob("%s is hashable" % qn[len("aiocoap."):], ev.hashable(qn), m, m.node if m else prog.classes[qn].node,
+               detail="a class body that defines __eq__ without __hash__ (or sets __hash__ = None) makes its instances unhashable", construct=qn[len("aiocoap."):] + ".__hash__")
+    ctx.floor("socket-address classes decided", n, 1)
+
+
 F_MM = "aiocoap/messagemanager.py"
 R.seed("C03.d", F_MM, "        messageerror_monitor, next_retransmission = self._active_exchanges.pop(key)\n        # this should be a no-op", "        messageerror_monitor, next_retransmission = self._active_exchanges[key]\n        # this should be a no-op", "timed-out exchange stays in the table: the remote looks busy forever")
 R.seed("C03.e", F_MM, "        if message.code.is_request():\n            # Responses", "        if message.code.is_request() or message.code is EMPTY:\n            # Responses", "empty ACK/RST with a recently seen message ID dropped as duplicate: retransmissions continue")
@@ -1678,3 +1836,15 @@ _REL = "    reliability: bool | None = None\n"
 R.seed("C03.k", F_CONST, _CLS_HEAD, "from dataclasses import dataclass\n\n\n@dataclass(kw_only=True)\nclass TransportTuning:\n    MAX_RETRANSMIT: int = 4\n", "generated __init__ stores the base default of MAX_RETRANSMIT on every instance: subclass overrides are shadowed")
 R.seed("C03.k", F_CONST, _REL, _REL + "\n    def __init__(self, ACK_TIMEOUT=2.0):\n        self.ACK_TIMEOUT = ACK_TIMEOUT\n\n", "hand-written constructor with a defaulted keyword: the instance attribute shadows subclass overrides")
 R.seed("C03.k", F_CONST, _REL, _REL + "\n    def __init__(self):\n        setattr(self, \"ACK_RANDOM_FACTOR\", 1.5)\n\n", "constant stored on every instance through setattr")
+
+# C03.l: the identity of the remote half of the exchange key
+F_UDP6 = "aiocoap/transports/udp6.py"
+_EQ = "        return self.sockaddr[:-1] == other.sockaddr[:-1]\n"
+_HASH = "        return hash(self.sockaddr[:-1])\n"
+R.seed("C03.l", F_UDP6, _EQ, "        return self.sockaddr == other.sockaddr\n", "the scope id takes part in the comparison: the ACK from the same IP address and port (reported with scope id 0) does not find the exchange of a request sent with a zone identifier")
+R.seed("C03.l", F_UDP6, _EQ, "        return self.sockaddr[:-1] == other.sockaddr[:-1] and self.pktinfo == other.pktinfo\n", "the local address takes part in the comparison: the address of an incoming datagram always carries one, the address a request was sent to need not")
+R.seed("C03.l", F_UDP6, _EQ, "        return self.sockaddr[0] == other.sockaddr[0]\n", "the port is not compared: an empty ACK from another endpoint of the same host stops the retransmissions")
+R.seed("C03.l", F_UDP6, _EQ, "        return self is other\n", "identity comparison: the freshly built address of an incoming ACK never equals the stored one")
+R.seed("C03.l", F_UDP6, _HASH, "        return hash(self.sockaddr)\n", "equal addresses (scope id ignored by __eq__) hash differently: the lookup misses")
+R.seed("C03.l", F_UDP6, _HASH, "        return hash((self.sockaddr, self.pktinfo))\n", "the hash depends on the local address __eq__ ignores")
+R.seed("C03.l", F_UDP6, "    def __hash__(self):\n" + _HASH + "\n", "", "__eq__ without __hash__: the remote is unhashable, the exchange cannot be stored")
